@@ -18,6 +18,9 @@ CLAIMED = {
  'C12': dict(cat='fault_enumeration', ref='5/C12', tech='deterministic simulation of the tablebase generator under a virtual clock with enumerated abort points (stop request / expired time limit injected at every sim step of the generation), then hash traffic; independent retrograde DTM oracle',
       text='For every 3-man pawnless class and both colour assignments: the un-aborted generation (both storage back ends) is compared with an independent distance-to-mate oracle on EVERY legal placement and both sides to move, and EVERY abort point of the generation (each clock read / iteration boundary, both as stop and as expired time limit) is taken once, followed by hash traffic, a sweep of probeDTM and a regeneration. 4-man classes are sampled (2 in quick, all 20 in thorough).',
       note='Trusted: sim/dtm_oracle.cpp (own move generator and retrograde analysis, cross-checked against published longest mates KQK 10, KRK 16, KBNK 33, KQKR 35); the abort can only land at the generation\'s own polling points (its clock reads and per-iteration stop test), which is where the real asynchronous stop becomes visible to it.'),
+ 'C13': dict(cat='exploration', ref='5/C13', tech=SIM + 'sessions on <=4-man pawnless roots that build the on-demand table inside the run under the virtual clock; independent retrograde DTM oracle for score, 50-move margin and the move played',
+      text='go infinite on random placements of 3-man (and sampled 4-man) classes with half-move clocks 0..99, Hash 8..64, Threads 1..4, run until the search ends by itself or a tick budget, then stop; settled results (depth >= reported mate distance) must equal the exact distance, drawn roots must not show mate scores, mates that cannot be completed before the 50-move limit are not announced (3-man), the move played follows a shortest mate and never turns a draw into a loss; also stop-during-generation followed by new searches.',
+      note='Trusted: sim/dtm_oracle.cpp. Results of searches that were cut before reaching the depth of the reported mate are only checked for consistency (never shorter than exact, right sign).'),
  'C14': dict(cat='exploration', ref='5/C14', tech=SIM + 'refinement check: probe search after (generated history + Clear Hash) vs. the same probe in a fresh engine process with the same option history, and vs. the same history under another schedule/clock',
       text='Seeded histories of 1..40 searches of all limit kinds (unrelated positions, earlier positions of the probe game, 3-man roots that build/abort on-demand tables, ucinewgame, option changes), then Clear Hash and a depth- or node-limited probe with one thread; the probe transcript (score lines without time/nps, node counts, bestmove) must equal that of a fresh engine.',
       note='Probe is restricted to full strength (Strength=1000, no MaxNPS/LimitStrength): reduced-strength play is seeded from the clock at ucinewgame by design. time/nps/hashfull fields and time-triggered currmove/stat lines are not compared.'),
@@ -35,7 +38,7 @@ NA = {
  'C20': 'The constraint solver is a pure function of the constraint system (DESIGN.md section 6).',
 }
 PENDING = {}
-for pid in ['C04', 'C07', 'C08', 'C09', 'C13', 'C17', 'C18', 'C19']:
+for pid in ['C04', 'C07', 'C08', 'C09', 'C17', 'C18', 'C19']:
     PENDING[pid] = 'check designed (DESIGN.md section 5) but not yet built/gated in this tree; not claimed until it passes its determinism and sensitivity gates'
 
 def main():
